@@ -19,6 +19,7 @@ BAD_DECIDERS = ["H\tVN:Z:1.0\tTS:i:200", "H\tVN:Z:2.0\tTS:i:300", "H\tVN:Z:3.0",
 # objects which belong to another Gfa already ("@foreign:" + text)
 BAD_DECIDERS += ["H\tyy:Z:ok\tzz:J:{bad", "H\tab:i:1\tcd:B:x,1", "H\tef:Z:fine\tgh:H:0G", "@foreign:S\tQ\t10\t*",
                  "@foreign:S\tQ\t*", "@foreign:E\te9\tA+\tB-\t0\t1\t0\t1\t*"]
+BAD_DECIDERS += ["U\tu1\tu1 A", "O\to1\to1+ A+", "E\te1\te1+\tA-\t0\t1\t0\t1\t*", "G\tg1\tg1+\tA-\t1\t*"]
 GOOD1 = ["S\tA\t*", "S\tB\tACGT", "H\tVN:Z:1.0"]
 GOOD2 = ["S\tA\t10\t*", "S\tB\t4\tACGT", "H\tVN:Z:2.0", "E\te\tA+\tB-\t0\t1\t0\t1\t*"]
 
@@ -48,6 +49,8 @@ def cases(rng, tier, shard, nshards):
                     seq.append(rng.choice(QUEUED))
                 else:
                     seq.append(rng.choice(GOOD1 + GOOD2))
+            if rng.random() < 0.3:
+                seq.insert(0, rng.choice(BAD_DECIDERS))      # (nothing is queued yet)
             seq = list(dict.fromkeys(seq))
             yield {"k": "unknown-version", "lines": seq, "vlevel": rng.choice([1, 1, 2, 3, 0])}
             continue
